@@ -606,8 +606,14 @@ def compare_case(case, trace, mres, fields=ALL_FIELDS):
                 ok = r == ["rejected"]
             elif out[0] == "arm":
                 ok = r[0] == "arm" and r[1] == str(out[1])
+                if not ok and mode == "tol" and r[0] == "arm":
+                    mg = mres["S"].get(i, {}).get("margins", [])
+                    ok = len(mg) == 1 and float(mg[0]) < 1e-6      # the two best expectations agree up to rounding
             elif out[0] == "arms":
                 ok = r[0] == "arms" and r[1:] == [str(a) for a in out[1]]
+                if not ok and mode == "tol" and r[0] == "arms" and len(r[1:]) == len(out[1]):
+                    mg = mres["S"].get(i, {}).get("margins", [])
+                    ok = len(mg) == len(out[1]) and all(str(a) == b or float(g) < 1e-6 for a, b, g in zip(out[1], r[1:], mg))
             elif out[0] == "exp":
                 ok = r[0] == "exp" and cmp_exp(out[1], r[1:], mode)
             elif out[0] == "exps":
